@@ -334,6 +334,7 @@ var c09Seeds = []string{
 	"[0..1e19]", "[1..1e300]", "[-1e19..5]", "[-9e18..9e18]", "[1e19..1e19]", "[-1e300..-1e300]", "[big..big]", "[0..big]", "[-big..big]", "$count([0..1e19])",
 	"1e308 + 1e308", "-1e308 - 1.7e308", "{\"t\": 1e308 + 1e308}", "[1.7e308 + 1.7e308]", "$sum([1e308]) + 1e308", "big + big", "-big - big", "{\"total\": $sum([big]) + big}",
 	"1e308 * 10", "1e308 / 1e-10", "5e-324 / 10", "1e308 % 0", "-(1e308 + 1e308)", "big * big", "big / (1 / big)", "$power(big, 2)", "$abs(-big) + big", "$max([big]) + $max([big])",
+	"$round(1.7976931348623157e308, -308)", "$round(1.5e308, -308)", "$round(-1.7e308, -307)", "$round(big, -308)", "{\"r\": $round(1.6e308, -308)}", "$round(9.5e307, -307)",
 	"null.a", "true.a", "1.a", "\"s\".a", "null[0]", "null[true]", "-null", "-\"a\"", "-[]", "[1] & [2]", "{} & {}", "$sum & 1", "1 in $sum", "$sum in [$sum]", "null in null",
 }
 
